@@ -24,18 +24,18 @@ pub struct PropInfo {
 pub fn prop_info(prop: &str) -> Option<PropInfo> {
     let p = |id, level, q, t, rule| Some(PropInfo { id, level, quick_runs: q, thorough_runs: t, rule });
     match prop {
-        "C04" => p("C04", "exploration", 16000, 320000, "one evaluation = one seeded history (12-36 ops: stores of 0..6400-byte events, removals, deletions, failed stores, three restart kinds, forced remap on/off) executed on the real Store with every offset ever returned re-read after every step; non-trivial = the history crossed at least one growth of event.map; distinct = distinct hash of the (op kind, outcome class, model size) sequence"),
-        "C05" => p("C05", "exploration", 24000, 480000, "one evaluation = one seeded history of 30-90 ops of which most are random filters (every subset of ids/authors/kinds/tags/since/until/limit, 1-3 values per list, scrape allowances x simulated clock, seeded screening) checked against the NIP-01 model; non-trivial = at least 10 queries over at least 4 stored events; distinct = distinct hash of (plan, match count, limit) sequences"),
-        "C09" => p("C09", "exploration", 14000, 280000, "one evaluation = one seeded history biased to several versions per replaceable address arriving in every timestamp order, neighbours (author, kind+-1, d differing in last byte / length / NUL / beyond byte 182), resubmissions and address deletions; non-trivial = at least one displacement, tie or 'replaced' refusal happened; distinct = distinct outcome-sequence hash"),
-        "C10" => p("C10", "exploration", 12000, 240000, "one evaluation = one seeded history with victim events and deletion requests mixing own / foreign / absent / malformed e and a targets in random order; non-trivial = at least one request naming a foreign target was processed; distinct = distinct outcome-sequence hash"),
-        "C11" => p("C11", "exploration", 12000, 240000, "one evaluation = one seeded history with 1-3 deletion requests per id/address in every timestamp order, resubmissions of covered and uncovered versions, restarts and rebuild; non-trivial = a store was refused as deleted or an address marker was set; distinct = distinct outcome-sequence hash"),
-        "C12" => p("C12", "fault_enumeration", 9000, 180000, "one evaluation = one seeded history in which EVERY fail-point occurrence of EVERY store is made to fail once (the store is then retried without the fault) and every refused store (duplicate/deleted/replaced/invalid delete) is compared, full observation before vs after; non-trivial = at least one injected failure and one refused store were compared; distinct = distinct outcome-sequence hash"),
-        "C13" => p("C13", "fault_enumeration", 1400, 30000, "one evaluation = one seeded history (5-14 ops) in which EVERY hook-granular kill point of every store/remove/vanish/open is snapshotted (byte copy of event.map, data.mdb, lock.mdb = what SIGKILL leaves in the page cache), reopened, compared with {state before, state after} and continued; non-trivial = at least 10 kill points were checked; distinct = distinct outcome-sequence hash"),
-        "C14" => p("C14", "exploration", 50000, 1000000, "one evaluation = one seeded schedule of 2-4 real threads x 1-3 ops over a prepared store, exactly one thread released at a time at the verif yield points, writer lock modelled; history checked against serial replay in lock order with per-reader snapshot windows; non-trivial = the schedule switched threads while an operation was in flight; distinct = distinct (thread, point) schedule hash"),
-        "C15" => p("C15", "exploration", 24000, 480000, "one evaluation = one seeded history taking references (address + bytes) and storing across growth steps with the page after the mapping occupied; after every op the address of a fresh lookup is compared with the recorded one (the stale pointer is never dereferenced); non-trivial = a reference was checked across at least one growth; distinct = distinct outcome-sequence hash"),
-        "C16" => p("C16", "exploration", 10000, 200000, "one evaluation = one seeded history with drop+new, close+new, copy+open and rebuild (also twice) at random positions over stores with leftovers, long/NUL d markers and 0-3 extra tables; full observation compared before vs after; non-trivial = at least one restart happened with at least 3 stored events; distinct = distinct outcome-sequence hash"),
-        "C17" => p("C17", "exploration", 7000, 140000, "one evaluation = one seeded history over events with repeated, long, empty and multi-string tags; after every step the self-derived filter battery and the index counts are compared with the model, most runs end by removing everything and requiring empty indexes; non-trivial = at least one removal/displacement happened and the battery ran at least 5 times; distinct = distinct outcome-sequence hash"),
-        "C18" => p("C18", "exploration", 12000, 240000, "one evaluation = one seeded history of removals (present/absent/removed), vanishes (authors with 0..many events, gift-wraps naming the key first / later / as a non-first value / in a non-1059 event), resubmissions and ephemeral stores; non-trivial = at least one removal or vanish hit a retrievable event; distinct = distinct outcome-sequence hash"),
+        "C04" => p("C04", "exploration", 16000, 128000, "one evaluation = one seeded history (12-36 ops: stores of 0..6400-byte events, removals, deletions, failed stores, three restart kinds, forced remap on/off) executed on the real Store with every offset ever returned re-read after every step; non-trivial = the history crossed at least one growth of event.map; distinct = distinct hash of the (op kind, outcome class, model size) sequence"),
+        "C05" => p("C05", "exploration", 24000, 192000, "one evaluation = one seeded history of 30-90 ops of which most are random filters (every subset of ids/authors/kinds/tags/since/until/limit, 1-3 values per list, scrape allowances x simulated clock, seeded screening) checked against the NIP-01 model; non-trivial = at least 10 queries over at least 4 stored events; distinct = distinct hash of (plan, match count, limit) sequences"),
+        "C09" => p("C09", "exploration", 14000, 112000, "one evaluation = one seeded history biased to several versions per replaceable address arriving in every timestamp order, neighbours (author, kind+-1, d differing in last byte / length / NUL / beyond byte 182), resubmissions and address deletions; non-trivial = at least one displacement, tie or 'replaced' refusal happened; distinct = distinct outcome-sequence hash"),
+        "C10" => p("C10", "exploration", 12000, 96000, "one evaluation = one seeded history with victim events and deletion requests mixing own / foreign / absent / malformed e and a targets in random order; non-trivial = at least one request naming a foreign target was processed; distinct = distinct outcome-sequence hash"),
+        "C11" => p("C11", "exploration", 12000, 96000, "one evaluation = one seeded history with 1-3 deletion requests per id/address in every timestamp order, resubmissions of covered and uncovered versions, restarts and rebuild; non-trivial = a store was refused as deleted or an address marker was set; distinct = distinct outcome-sequence hash"),
+        "C12" => p("C12", "fault_enumeration", 9000, 72000, "one evaluation = one seeded history in which EVERY fail-point occurrence of EVERY store is made to fail once (the store is then retried without the fault) and every refused store (duplicate/deleted/replaced/invalid delete) is compared, full observation before vs after; non-trivial = at least one injected failure and one refused store were compared; distinct = distinct outcome-sequence hash"),
+        "C13" => p("C13", "fault_enumeration", 1400, 11200, "one evaluation = one seeded history (5-14 ops) in which EVERY hook-granular kill point of every store/remove/vanish/open is snapshotted (byte copy of event.map, data.mdb, lock.mdb = what SIGKILL leaves in the page cache), reopened, compared with {state before, state after} and continued; non-trivial = at least 10 kill points were checked; distinct = distinct outcome-sequence hash"),
+        "C14" => p("C14", "exploration", 50000, 400000, "one evaluation = one seeded schedule of 2-4 real threads x 1-3 ops over a prepared store, exactly one thread released at a time at the verif yield points, writer lock modelled; history checked against serial replay in lock order with per-reader snapshot windows; non-trivial = the schedule switched threads while an operation was in flight; distinct = distinct (thread, point) schedule hash"),
+        "C15" => p("C15", "exploration", 24000, 192000, "one evaluation = one seeded history taking references (address + bytes) and storing across growth steps with the page after the mapping occupied; after every op the address of a fresh lookup is compared with the recorded one (the stale pointer is never dereferenced); non-trivial = a reference was checked across at least one growth; distinct = distinct outcome-sequence hash"),
+        "C16" => p("C16", "exploration", 10000, 80000, "one evaluation = one seeded history with drop+new, close+new, copy+open and rebuild (also twice) at random positions over stores with leftovers, long/NUL d markers and 0-3 extra tables; full observation compared before vs after; non-trivial = at least one restart happened with at least 3 stored events; distinct = distinct outcome-sequence hash"),
+        "C17" => p("C17", "exploration", 7000, 56000, "one evaluation = one seeded history over events with repeated, long, empty and multi-string tags; after every step the self-derived filter battery and the index counts are compared with the model, most runs end by removing everything and requiring empty indexes; non-trivial = at least one removal/displacement happened and the battery ran at least 5 times; distinct = distinct outcome-sequence hash"),
+        "C18" => p("C18", "exploration", 12000, 96000, "one evaluation = one seeded history of removals (present/absent/removed), vanishes (authors with 0..many events, gift-wraps naming the key first / later / as a non-first value / in a non-1059 event), resubmissions and ephemeral stores; non-trivial = at least one removal or vanish hit a retrievable event; distinct = distinct outcome-sequence hash"),
         _ => None,
     }
 }
